@@ -32,7 +32,17 @@ def run(cmd, **kw):
 diff = os.path.join(wt, f"mutant{k}.diff"); demo = os.path.join(wt, f"demo{k}.py"); note = os.path.join(wt, f"note{k}.txt")
 run(["git", "-C", wt, "checkout", "--", "rich"])
 rc_clean, out_clean = run(["/venv/bin/python", demo], cwd=wt)
-rc, out = run(["git", "-C", wt, "apply", diff]); assert rc == 0, out
+rc, out = run(["git", "-C", wt, "apply", diff])
+if rc != 0:
+    # the code this patch touched has since been changed by a `fix:` commit: keep the record, say so
+    mp = os.path.join(VERIF, "seeded", name, "meta.json")
+    if os.path.exists(mp):
+        meta = json.load(open(mp))
+        meta["latest_recheck"] = {"repo_head": run(["git", "-C", "/repo", "rev-parse", "--short", "HEAD"])[1].strip(), "applies": False,
+                                  "note": "patch no longer applies to the current tree (the lines it changes were rewritten by a later fix: commit); the detection recorded above is from the tree it was written for"}
+        json.dump(meta, open(mp, "w"), indent=1)
+    print(name, "PATCH NO LONGER APPLIES")
+    sys.exit(0)
 try:
     rc_mut, out_mut = run(["/venv/bin/python", demo], cwd=wt)
     rc_base, out_base = run([os.path.join(VERIF, "tools", "baseline.py"), wt])
